@@ -53,3 +53,11 @@ claim('C19', 'proof',
       'dominates every exec/eval/compile, with and without an enclosing scope.',
       'Trusted: engine, `ast.NodeVisitor.generic_visit` visits every child (stdlib). "A granted program behaves like exec" is bounded-tier only.',
       'contract-based deductive verification (pyvc; exhaustive over ast classes, symbolic permission bits)', 'DESIGN.md 5/C19')
+claim('C11', 'proof',
+      'Validators accept exactly the valid set, one level with children by induction hypothesis: `Choices.validate` (single choice; and multi choice with a '
+      'symbolic number of choices and candidates, every distinct/sorted combination), `Space.validate` (any number of elements) and `Float.validate` raise '
+      'ValueError iff the statement\'s constraints (arity, 0 <= index < n, distinctness, sortedness, conditional sub-space validity, float range) fail. '
+      'The enumeration itself (next_dna odometers, space_size, random_dna, Sweeping) is checked by the bounded tier against brute-force enumeration.',
+      'Trusted: engine; axioms for set()/sorted() on integer sequences; A-INDUCTION for sub-spaces. next_dna / space_size are not under contract '
+      '(nested closures with mutable sets): bounded only.',
+      'contract-based deductive verification (pyvc) + bounded stand-in (brute-force enumeration) for the odometers', 'DESIGN.md 5/C11')
